@@ -97,6 +97,7 @@ type Path struct {
 	assertTO  int
 	initLock  bool
 	tags      []string
+	solverGen int
 	known     map[int]bool
 	model     map[string]*Term
 	modelMemo map[int]*Term
@@ -335,6 +336,19 @@ func (p *Path) substRec(t *Term, depth int) *Term {
 }
 
 // feasible asks the incremental solver whether pc ∧ c is satisfiable. unknown counts as feasible.
+// ensureSync re-asserts the whole path condition after the incremental solver process had to be restarted.
+func (p *Path) ensureSync() {
+	s := p.w.inc
+	if s.gen == p.solverGen {
+		return
+	}
+	p.solverGen = s.gen
+	s.Push()
+	for _, c := range p.pc {
+		s.Assert(c)
+	}
+}
+
 func (p *Path) feasible(c *Term) bool {
 	if c == TTrue {
 		return true
@@ -342,6 +356,7 @@ func (p *Path) feasible(c *Term) bool {
 	if c == TFalse {
 		return false
 	}
+	p.ensureSync()
 	// a model of the current path condition that also satisfies c witnesses feasibility without a query
 	if p.model != nil {
 		if evalTerm(c, p.model, p.modelMemo) == TTrue {
@@ -574,6 +589,7 @@ func modelStrings(m map[string]*Term) map[string]string {
 // checkNeg decides whether pc ∧ neg is satisfiable, definitively (one-shot solver). Returns verdict, model.
 func (p *Path) checkNeg(neg *Term, wantModel bool) (string, map[string]*Term, int64) {
 	t0 := time.Now()
+	p.ensureSync()
 	// cheap attempt on the incremental solver
 	s := p.w.inc
 	s.Push()
@@ -812,6 +828,7 @@ func (e *Engine) runPath(w *Worker, fn *ssa.Function, prefix []int) {
 		pools: map[string][]string{}, unroll: e.cfg.Unroll, knobs: map[string]int64{}, world: map[string]Value{}, findings: map[string]bool{}}
 	w.inc.PopAll()
 	w.inc.Push()
+	p.solverGen = w.inc.gen
 	defer func() {
 		if r := recover(); r != nil {
 			switch r := r.(type) {
